@@ -40,6 +40,7 @@ type Data struct {
 	Format    string         `json:"format"` // json | query | yaml
 	Text      TextSpec       `json:"text"`
 	Query     *QuerySpec     `json:"query,omitempty"`
+	YAML      *YAMLSpec      `json:"yaml,omitempty"`
 	Corrupt   Corruption     `json:"corrupt"`
 	Transport string         `json:"transport"` // pipe | seek | file | slurpfile | argjson | stream-pipe | arg | fromfile | ...
 	Plan      simio.ReadPlan `json:"plan"`
@@ -60,7 +61,7 @@ func tier(t string) tiers {
 
 func (Prop) Units(t string, seed uint64) int {
 	tr := tier(t)
-	return tr.SmallTexts/4 + tr.LargeTexts + tr.Queries/20
+	return tr.SmallTexts/4 + tr.LargeTexts + tr.Queries/20 + tr.Queries/20
 }
 
 // ---- the corrupted input and where the offending byte is ---------------------
@@ -69,6 +70,8 @@ func (d *Data) corrupted() (text string, offending int, eof bool) {
 	var t string
 	if d.Format == "query" && d.Query != nil {
 		t = d.Query.Text()
+	} else if d.Format == "yaml" && d.YAML != nil {
+		t, _, _ = d.YAML.Build()
 	} else {
 		t, _ = d.Text.Build()
 	}
@@ -169,7 +172,14 @@ func (d *Data) run() (result, string) {
 	case "pipe", "seek":
 		p := d.Plan
 		p.Seekable = d.Transport == "seek"
+		if d.Format == "yaml" {
+			return runCLI([]byte(text), p, []string{"-c", "--yaml-input", "."}), "<stdin>"
+		}
 		return runCLI([]byte(text), p, []string{"-c", "."}), "<stdin>"
+	case "yaml-file":
+		f := filepath.Join(scratch(), "input.yaml")
+		os.WriteFile(f, []byte(text), 0o644)
+		return runCLI(nil, simio.ReadPlan{}, []string{"-c", "--yaml-input", ".", f}), f
 	case "stream-pipe":
 		return runCLI([]byte(text), d.Plan, []string{"-c", "--stream", "."}), "<stdin>"
 	case "slurp-pipe":
@@ -546,6 +556,43 @@ func (Prop) RunUnit(env *kernel.Env, unit int) {
 		if out.WantSample() {
 			out.Sample(map[string]any{"format": "json", "text_spec": spec, "text_bytes": len(text), "positions_tried": n, "first_200_bytes": kernel.Short2(text, 200)})
 		}
+	case unit >= smallUnits+tr.LargeTexts+tr.Queries/20:
+		// YAML: a reserved indicator where a plain scalar starts, a tab as the indentation of a nested
+		// block, a forbidden control byte; every such position of each generated text
+		for k := 0; k < 20; k++ {
+			spec := YAMLSpec{Seed: r.Uint64(), Docs: r.Range(1, 3), Lines: r.Range(2, 40), Wide: r.Bool(0.6), Term: kernel.Pick(r, []string{"\n", "\n", "\r\n"})}
+			if r.Bool(0.1) {
+				spec.Lines = r.Range(400, 1500) // beyond the reader's window
+			}
+			text, scalars, indents := spec.Build()
+			var cs []Corruption
+			for _, p := range scalars {
+				cs = append(cs, Corruption{Kind: "insert", Pos: p, Bytes: kernel.Pick(r, []string{"@", "`"}), Off: 0})
+			}
+			for _, p := range indents {
+				cs = append(cs, Corruption{Kind: "insert", Pos: p, Bytes: "\t", Off: 0})
+			}
+			if len(text) > 0 {
+				cs = append(cs, Corruption{Kind: "insert", Pos: r.Intn(len(text)), Bytes: "\x01", Off: 0})
+			}
+			if len(cs) > 60 {
+				pm := r.Perm(len(cs))
+				var sel []Corruption
+				for _, i := range pm[:60] {
+					sel = append(sel, cs[i])
+				}
+				cs = sel
+			}
+			for _, c := range cs {
+				sp := spec
+				d := &Data{Format: "yaml", YAML: &sp, Corrupt: c, Transport: kernel.Pick(r, []string{"pipe", "seek", "yaml-file"})}
+				d.Plan, d.PlanClass = simio.GenPlan(r, len(text), []int{c.Pos, c.Pos + 1})
+				if !try(d) {
+					break
+				}
+			}
+			out.Inc("yaml_texts_all_positions")
+		}
 	default:
 		for k := 0; k < 20; k++ {
 			q := genQuerySpec(r)
@@ -578,7 +625,7 @@ func (Prop) Shrink(c kernel.Case) []kernel.Case {
 	var out []kernel.Case
 	add := func(e Data) { out = append(out, kernel.NewCase(ID, e.Format, e)) }
 	if d.Format != "json" {
-		return nil
+		return out
 	}
 	// simpler delivery
 	if len(d.Plan.Chunks) > 0 || d.Plan.Rest != 0 {
